@@ -233,6 +233,9 @@ def pat_tests(subject, pt):
 def cond_tests(c, pol):
     """facts that hold when condition term c evaluates to pol"""
     if isinstance(c, tuple) and c:
+        dv = sym.decide_bool(c)
+        if dv is not None:
+            return [] if dv == pol else False
         if c[0] == "lit" and isinstance(c[1], bool):
             return [] if c[1] == pol else False
         if c[0] == "survived":
@@ -278,6 +281,15 @@ def cond_tests(c, pol):
         if c[0] == "bin" and c[1] in ("Or", "BitOr") and not pol:
             a, b = cond_tests(c[2], False), cond_tests(c[3], False)
             return False if a is False or b is False else a + b
+        if c[0] == "bin" and c[1] in ("And", "BitAnd", "Or", "BitOr"):
+            # not (a and b) / (a or b): decided when one side is decided
+            conj = c[1] in ("And", "BitAnd")
+            da, db = sym.decide_bool(c[2]), sym.decide_bool(c[3])
+            for dx, other in ((da, c[3]), (db, c[2])):
+                if dx is not None:
+                    if dx == conj:          # neutral element: the other side decides
+                        return cond_tests(other, pol)
+                    return [] if pol != conj else False   # absorbing element
     return [("cond", norm(c), pol)]
 
 
@@ -304,11 +316,25 @@ def _leaves(t, tests, out, limit):
         key, arms = (t[1], t[2]) if k == "phi" else (("match", t[1]), t[2])
         if key[0] == "match":
             sc = key[1]
-            for pk, v in arms:
+            earlier = []   # guarded arms that were passed over: a later arm is reached only when (pattern and guard) failed
+            for arm in arms:
+                pk, v = arm[0], arm[-1]
                 r = pat_tests(sc, parse_pat(pk))
                 if r is False:
                     continue
-                _leaves(v, tests + r, out, limit)
+                if len(arm) == 3 and isinstance(arm[1], tuple) and arm[1][:1] == ("guard",):
+                    g = cond_tests(arm[1][1], True)
+                    if g is False:
+                        continue
+                    _leaves(v, tests + earlier + r + g, out, limit)
+                    if r + g:
+                        earlier = earlier + [("not", tuple(r + g))]
+                    else:
+                        return   # an irrefutable arm whose guard always holds: nothing below is reached
+                    continue
+                _leaves(v, tests + earlier + r, out, limit)
+                if not r:
+                    return
             return
         if key[0] == "if":
             c = key[1]
